@@ -4,7 +4,7 @@
   equals the zero value of its type).
 -/
 import Cog.Sem.GoEqualsLemmas
-namespace Cog.Sem
+namespace Cog.Sem.GoEq
 open Cog.IR
 
 def isLeafVal : GoVal → Bool
@@ -418,4 +418,4 @@ theorem goEquals_symm : ∀ (fuel : Nat) (ss : Schemas) (t : Ty) (a b : GoVal),
       exact eqBranches_symm ih fields _ _ wx.1 wy.1 nx h
     case alias t' => exact ih t' a b ha hb na hab
 
-end Cog.Sem
+end Cog.Sem.GoEq
